@@ -32,7 +32,7 @@ PROPS = {
         assumptions=[
             "value domain: v <= 2^64-2 (documented maximum) for gamma/delta/omega/zeta/pi/exp-Golomb, any u64 for VByte/Rice; zeta k in 1..=63; pi/Rice/exp-Golomb k in 0..=63; minimal binary 1<=u<2^64, v<u",
             "codewords longer than 128 bits are outside (unary-prefixed codes: Rice/Golomb quotient bounded accordingly)",
-            "Golomb modulus b in 1..=64 (quick) / 1..=4096 with v<2^20 (thorough): symbolic 64-bit division with larger moduli does not finish",
+            "Golomb modulus b in 1..=16 with any quotient (quick), 1..=64 and 1..=4096 with v<2^20 (thorough), and ANY 64-bit modulus with v<b (quotient 0; quick): symbolic 64-bit division with larger moduli does not finish",
             "model stream MS<E> (256 bits) is the canonical model of C01/C02; its own correctness is checked by c03_ms_selfcheck_* and c03_ms_rebase_*",
             "quick tier reads on the stream re-based at the symbolic offset (position-independence lemma c03_ms_rebase_*); thorough tier reads in place",
         ],
@@ -150,12 +150,12 @@ PROPS = {
     ),
     "C15": dict(
         prefixes=["c15_"],
-        level_text="Bounded model checking of the real CodesStats / CodesStatsWrapper code: one update/update_many with symbolic value and multiplicity from an arbitrary statistics value (every field = old + len_code(n, parameter(index)) * count, index->parameter map restated in the harness), merge operations (add, +=, +, sum) equal the field-wise sum, best_code returns the minimum with the right parameter, the dispatch wrapper updates by the value written/read. Any multiset and any split follow by induction (updates and merges are additions). Thread interleavings are not decided by the solver (see outside_claim).",
+        level_text="Bounded model checking of the real CodesStats / CodesStatsWrapper code: one update/update_many with symbolic value and multiplicity from an arbitrary statistics value (every field = old + len_code(n, parameter(index)) * count, index->parameter map restated in the harness), merge operations (add, +=, +, sum) equal the field-wise sum, best_code returns the minimum with the right parameter, the dispatch wrapper updates by the value written/read. Any multiset and any split follow by induction (updates and merges are additions). Concurrent use: Kani has no threads, so what other threads can do is modelled where they can do it - std::sync::Mutex::lock is stubbed by a function that, at every acquisition, may apply complete updates of other threads before handing over the guard; each of the wrapper's four operations must end with its own update plus every interfering one (an operation that releases the lock in the middle of its read-modify-write loses them and is refuted; counterexamples are replayed natively with real threads).",
         assumptions=[
             "totals fit in 64 bits: fields < 2^56 before the step, n < 2^12 (default instantiation <10,20,10,10,10>) or n < 2^40 (reduced instantiation <2,3,2,2,2>), count < 2^16 / 2^12",
-            "std::sync::Mutex as modelled by Kani (single-threaded use)",
+            "std::sync::Mutex as modelled by Kani; c15_atomic_*: Mutex::lock stubbed (try_lock + up to 3 interfering updates of a symbolic value, each at any acquisition)",
         ],
-        outside=COMMON_OUTSIDE + ["concurrent updates from several threads: Kani does not model threads; argument instead: every update is an addition performed under the wrapper's Mutex (lock held around the whole update by construction), additions commute, so any interleaving of atomic updates yields the same totals (Mutex contract trusted)", "full-width n with the default instantiation (20 constant dividers did not finish)"],
+        outside=COMMON_OUTSIDE + ["real thread schedules: interleavings are modelled only at lock acquisitions (sound for data reachable only through the Mutex, whose contract is trusted); data races on state outside the Mutex would not be seen", "full-width n with the default instantiation (20 constant dividers did not finish)"],
     ),
     "C16": dict(
         prefixes=["c16_"],
